@@ -26,6 +26,9 @@ def gen_tables(rng, H, P, lbox=2000.0, with_env=True, dtype=np.float64):
         halo['hdeltac'] = rng.uniform(-0.5, 0.5, H).astype(dtype)
         halo['hfenv'] = rng.uniform(-0.5, 0.5, H).astype(dtype)
         halo['hshear'] = rng.uniform(-0.5, 0.5, H).astype(dtype)
+    if H and rng.random() < 0.5:
+        # halo masses are particle counts x particle mass in real catalogues: many hosts share a mass exactly
+        halo['hmass'] = (10 ** (np.round(np.log10(halo['hmass']) / 0.05) * 0.05)).astype(dtype)
     pinds = np.sort(rng.integers(0, H, P)) if H else np.zeros(0, dtype=np.int64)
     part = dict(
         ppos=(halo['hpos'][pinds] + rng.normal(0, 0.5, (P, 3))).astype(dtype),
